@@ -594,7 +594,9 @@ theorem mergeFiles_spec (s : State) (t : Name) :
       (∀ g, g ∈ (mergeFiles s t).W → g = baseFile t ∨ g = manifestFile (baseFile t)) ∧
       (∀ g, g ≠ baseFile t → g ≠ manifestFile (baseFile t) →
           getF (mergeFiles s t).st.disk g = getF s.disk g) ∧
-      (∃ ub p, getF (mergeFiles s t).st.disk (baseFile t) = some (.cont ub p)) ∧
+      (∃ ub p, getF (mergeFiles s t).st.disk (baseFile t) = some (.cont ub p) ∧
+        (ub.pid = s.next ∨ ∀ fl ul, lastFile s.h.files = some (fl, ul) → ub.pid = ul.pid)) ∧
+      s.next < (mergeFiles s t).st.next ∧
       (getF (mergeFiles s t).st.disk (manifestFile (baseFile t)) = getF s.disk (manifestFile (baseFile t)) ∨
         (manifestFile (baseFile t) ∈ (mergeFiles s t).W ∧
           ∃ a b, getF (mergeFiles s t).st.disk (manifestFile (baseFile t)) = some (.mf a b))) ∧
@@ -647,7 +649,7 @@ theorem mergeFiles_spec (s : State) (t : Name) :
               cases hman : s.h.manifest with
               | none =>
                 simp only [Res.W, List.append_nil, List.nil_append]
-                refine ⟨trivial, trivial, ?_, ?_, ?_, ?_, by simp⟩
+                refine ⟨trivial, trivial, ?_, ?_, ?_, by omega, ?_, by simp⟩
                 · intro g hg
                   simp only [List.mem_cons, List.mem_append] at hg
                   rcases hg with (rfl | hg) | hg
@@ -657,7 +659,9 @@ theorem mergeFiles_spec (s : State) (t : Name) :
                 · intro g hg1 hg2
                   rw [getF_setF_ne _ _ _ _ hg1, hd, getF_setF_ne _ _ _ _ hg2, getF_setF_ne _ _ _ _ hg1,
                     getF_setF_ne _ _ _ _ hg1, getF_setF_ne _ _ _ _ hg1]
-                · exact ⟨_, _, getF_setF_eq _ _ _⟩
+                · refine ⟨_, _, getF_setF_eq _ _ _, Or.inr ?_⟩
+                  intro fl' ul' hl'
+                  first | (rw [hl] at hl'; cases hl'; rfl) | (cases hl'; rfl)
                 · right
                   refine ⟨by rcases hsideW with h | h <;> simp [h], ?_⟩
                   rw [getF_setF_ne _ _ _ _ hside, hd, getF_setF_eq]
@@ -667,7 +671,7 @@ theorem mergeFiles_spec (s : State) (t : Name) :
                 cases hext : ul.ext with
                 | none =>
                   simp only [Res.W, List.append_nil, List.nil_append]
-                  refine ⟨trivial, trivial, ?_, ?_, ?_, ?_, by simp⟩
+                  refine ⟨trivial, trivial, ?_, ?_, ?_, by omega, ?_, by simp⟩
                   · intro g hg
                     simp only [List.mem_cons, List.mem_append] at hg
                     rcases hg with (rfl | hg) | hg
@@ -677,7 +681,9 @@ theorem mergeFiles_spec (s : State) (t : Name) :
                   · intro g hg1 hg2
                     rw [getF_setF_ne _ _ _ _ hg1, hd, getF_setF_ne _ _ _ _ hg2, getF_setF_ne _ _ _ _ hg1,
                       getF_setF_ne _ _ _ _ hg1, getF_setF_ne _ _ _ _ hg1]
-                  · exact ⟨_, _, getF_setF_eq _ _ _⟩
+                  · refine ⟨_, _, getF_setF_eq _ _ _, Or.inr ?_⟩
+                    intro fl' ul' hl'
+                    first | (rw [hl] at hl'; cases hl'; rfl) | (cases hl'; rfl)
                   · right
                     refine ⟨by rcases hsideW with h | h <;> simp [h], ?_⟩
                     rw [getF_setF_ne _ _ _ _ hside, hd, getF_setF_eq]
@@ -687,7 +693,7 @@ theorem mergeFiles_spec (s : State) (t : Name) :
                   simp only
                   by_cases heq : (eu == mu)
                   · simp only [heq, if_true, Res.W, List.append_nil, List.nil_append]
-                    refine ⟨trivial, trivial, ?_, ?_, ?_, ?_, by simp⟩
+                    refine ⟨trivial, trivial, ?_, ?_, ?_, by omega, ?_, by simp⟩
                     · intro g hg
                       simp only [List.mem_cons, List.mem_append, List.not_mem_nil, or_false] at hg
                       rcases hg with (rfl | hg) | hg | rfl
@@ -698,13 +704,15 @@ theorem mergeFiles_spec (s : State) (t : Name) :
                     · intro g hg1 hg2
                       rw [getF_setF_ne _ _ _ _ hg1, getF_setF_ne _ _ _ _ hg2, hd, getF_setF_ne _ _ _ _ hg2, getF_setF_ne _ _ _ _ hg1,
                         getF_setF_ne _ _ _ _ hg1, getF_setF_ne _ _ _ _ hg1]
-                    · exact ⟨_, _, getF_setF_eq _ _ _⟩
+                    · refine ⟨_, _, getF_setF_eq _ _ _, Or.inr ?_⟩
+                      intro fl' ul' hl'
+                      first | (rw [hl] at hl'; cases hl'; rfl) | (cases hl'; rfl)
                     · right
                       refine ⟨by simp, ?_⟩
                       rw [getF_setF_ne _ _ _ _ hside, getF_setF_eq]
                       exact ⟨_, _, rfl⟩
                   · simp only [heq, Bool.false_eq_true, if_false, Res.W, List.append_nil, List.nil_append]
-                    refine ⟨trivial, trivial, ?_, ?_, ?_, ?_, by simp⟩
+                    refine ⟨trivial, trivial, ?_, ?_, ?_, by omega, ?_, by simp⟩
                     · intro g hg
                       simp only [List.mem_cons, List.mem_append] at hg
                       rcases hg with (rfl | hg) | hg
@@ -715,7 +723,7 @@ theorem mergeFiles_spec (s : State) (t : Name) :
                       rw [hd, getF_setF_ne _ _ _ _ hg2, getF_setF_ne _ _ _ _ hg1,
                         getF_setF_ne _ _ _ _ hg1, getF_setF_ne _ _ _ _ hg1]
                     · rw [hd, getF_setF_ne _ _ _ _ hside.symm, getF_setF_eq]
-                      exact ⟨_, _, rfl⟩
+                      exact ⟨_, _, rfl, Or.inl rfl⟩
                     · right
                       refine ⟨by rcases hsideW with h | h <;> simp [h], ?_⟩
                       rw [hd, getF_setF_eq]
@@ -726,11 +734,13 @@ theorem mergeFiles_spec (s : State) (t : Name) :
               simp only [freshHandle] at this
               rw [this]
               simp only [Res.W, List.append_nil, List.nil_append, List.mem_cons, List.not_mem_nil, or_false]
-              refine ⟨by simpa using hc, by simpa using hw, hv, h2, h1, trivial, trivial, ?_, ?_, ?_, ?_, by simp⟩
+              refine ⟨by simpa using hc, by simpa using hw, hv, h2, h1, trivial, trivial, ?_, ?_, ?_, by omega, ?_, by simp⟩
               · intro g hg; left; simpa using hg
               · intro g hg1 hg2
                 simp only [getF_setF_ne _ _ _ _ hg1]
-              · exact ⟨_, _, getF_setF_eq _ _ _⟩
+              · refine ⟨_, _, getF_setF_eq _ _ _, Or.inr ?_⟩
+                intro fl' ul' hl'
+                first | (rw [hl] at hl'; cases hl'; rfl) | (cases hl'; rfl)
               · left
                 simp only [getF_setF_ne _ _ _ _ hside]
 
